@@ -23,9 +23,44 @@ TRUSTED = ["rustc MIR lowering and type checking", "A2 Vec/HashMap::clone are de
 ASSUMPTIONS = ["T's own Clone is a deep copy when T is used as an element type (usize everywhere in this crate)"]
 
 
+def int_table_growth(ctx, g):
+    """IntPartitionImpl::root_index(a) first grows its two tables so that `a` has a slot: for i in parent.len()..=a { parent.push(i); rank.push(0) } - inclusive of a
+    (the walk reads parent[a] right after), each new element its own parent with rank 0"""
+    ctx.clauses.append("IntPartition: the tables are grown up to and including the element asked for, new elements are singletons of rank 0 (T4)")
+    b = ctx.body(M + "IntPartitionImpl::root_index")
+    ctx.scan([b])
+    me, a_ = ("param", 1, b.debug.get(1, "")), ("param", 2, b.debug.get(2, ""))
+    pushes = [(bi, [strip(norm(b.origin(x), g)) for x in t["args"]]) for bi, t in b.calls("Vec::<T, A>::push")]
+    bad = None
+    par = [x for x in pushes if x[1][0] == ("field", me, "parent")]
+    rnk = [x for x in pushes if x[1][0] == ("field", me, "rank")]
+    if len(par) != 1 or len(rnk) != 1:
+        bad = "not one push per table"
+    else:
+        i_ = par[0][1][1]
+        r = loop_range_of_payload(b, i_, g)
+        lp1, lp2 = loop_containing(b, par[0][0]), loop_containing(b, rnk[0][0])
+        if r is None:
+            bad = "a new element is not its own parent (parent.push(i) with i the index being added)"
+        else:
+            lo = strip(r[0])
+            hi = eval_term_env(unov_deep(fold_std_ops(strip(r[1]))), {a_: 7})
+            last = None if hi is None else (hi if r[2] else hi - 1)
+            if not (is_call(lo, "::len") and strip(lo[2][0]) == ("field", me, "parent")):
+                bad = "the tables are not grown from parent.len()"
+            elif last != 7:
+                bad = "for a = 7 the tables are grown up to index %s: parent[a] is read right afterwards and %s" % (last, "is out of bounds" if last is not None and last < 7 else "elements beyond a are created")
+            elif eval_int(rnk[0][1][1]) != 0:
+                bad = "a new element does not start with rank 0"
+            elif lp1 is None or lp1 != lp2:
+                bad = "the two tables are not grown together"
+    ctx.ob("T4-int-table-growth", b.name, "for i in parent.len()..=a", "ok" if not bad else "violation", "parent.push(i); rank.push(0) for every i in parent.len()..=a" if not bad else bad)
+
+
 def run(ctx):
     g = ctx.facts.getters()
     find_returns_root(ctx, g)
+    int_table_growth(ctx, g)
     for wrap, impl, wpath, ipath in PAIRS:
         clone_rules(ctx, g, wrap, impl)
         sync_rules(ctx, g, wrap, wpath)
